@@ -1,6 +1,6 @@
 (* Verdict function for the C10 correspondence run.
    case = (.sym text, index bytes produced by the implementation (None = error), EQ, RT, LKEQ flags, lookups (address, observed result)). *)
-From SV Require Import Lib.Bytes Model.LineBuffer Model.BreakpadIndex Model.BreakpadLookup Spec.BreakpadText.
+From SV Require Import Lib.Bytes Model.LineBuffer Model.BreakpadIndex Model.BreakpadIndexParse Model.BreakpadLookup Spec.BreakpadText.
 Open Scope N_scope.
 
 Definition obytes_eqb (a b : option bytes) : bool :=
@@ -41,7 +41,12 @@ Definition verdict (c : bytes * option bytes * bool * bool * bool * list (N * lr
                   | Some ix, Some b => bytes_eqb (serialize ix) b
                   | None, None => true
                   | _, _ => false end in
+  (* the model of parse_symindex_file reads the implementation's index bytes back into tables that serialize to the same bytes *)
+  let parse_ok := match idx_bytes with
+                  | Some b => match parse_symindex b with Some p => bytes_eqb (serialize p) b | None => false end
+                  | None => true end in
   (if wf && existsb (fun '(_, r) => match r with LSome _ _ _ (Some (_ :: _ :: _)) => true | _ => false end) lookups then 10 else 0) +
   (if negb eq || negb rt || negb lkeq then 2
+   else if negb parse_ok then 1
    else if wf then (if text_ok then (if model_ok then (if bytes_ok then 0 else 4) else 1) else 2)
    else (if model_ok then (if bytes_ok || ambiguous then 3 else 4) else 1)).
